@@ -353,10 +353,10 @@ var litComplex = []string{"(1.0--2.0i)", "(1.0++2.0i)", "(1.0-+2.0i)", "(1.0+-2.
 	"(1.0e+308--1.0e+308i)", "(5.0e-324-5.0e-324i)", "(1.5+2.5i)", "(0.0+0.0i)", "(-1.5-2.5i)", "(3.0-4.0i)", "(1.0e+5-2.0E-3i)", "(+1.0+-2.0i)", "(-0.0-0.0i)", "(1.0+2.0e+10i)",
 	"(0.25-0.5i)", "(1.0E-7+1.0E+7i)"}
 var litRunes = []string{`'a'`, `'Z'`, `'0'`, `' '`, `'"'`, `'\''`, `'\\'`, `'\n'`, `'\t'`, `'\a'`, `'\b'`, `'\f'`, `'\r'`, `'\v'`, `'\x41'`, `'\xff'`, `'\x00'`,
-	`'☺'`, `'é'`, `'\U0001f600'`, `'\U0010ffff'`, `'☺'`, `'😀'`, `'é'`, `'['`, `','`, `'퟿'`, `''`}
+	`'☺'`, `'é'`, `'\U0001f600'`, `'\U0010ffff'`, `'\u00e9'`, `'\u263a'`, `'\uffff'`, `'\u0041'`, `'☺'`, `'😀'`, `'é'`, `'['`, `','`, `'퟿'`, `''`}
 var litStrings = []string{`""`, `"a"`, `"abc"`, `"Hello World!"`, `"a\"b"`, `"\\"`, `"tab\there"`, `"\x41\x42"`, `"☺"`, `"\U0001f600!"`, `"☺ é 😀"`,
 	`"\xff\xfe"`, `"it's"`, `"[1, 2](List)"`, `"\101"`, `"\x4F"`, `"\a\b\f\n\r\t\v"`, `"\\\""`, `"x\\"`, `"\"\""`, `"key"`, `"none"`, `"(Array)"`, `"é\xe9"`,
-	`"0123456789012345678901234567890123456789"`}
+	`"0123456789012345678901234567890123456789"`, `"\u00e9\u263a"`, `"a\u0041b\U0001f600\x7f"`}
 var litWords = []string{"true", "false", "nil"}
 
 // literals that the scanner accepts but that have no exact value: must be rejected
@@ -388,7 +388,7 @@ func (g *docGen) randomDigits(n int) string {
 }
 
 func (g *docGen) randomString() string {
-	pieces := []string{"a", "b", "z", " ", "é", "☺", "😀", `\"`, `\\`, `\n`, `\t`, `\x41`, `\x80`, `é`, `☺`, `\U0001f600`, "'", "[", "]", ":", ",", "(", ")", "0", "x", "#", "\t"}
+	pieces := []string{"a", "b", "z", " ", "é", "☺", "😀", `\"`, `\\`, `\n`, `\t`, `\x41`, `\x80`, `\u00e9`, `\ud7ff`, `é`, `☺`, `\U0001f600`, "'", "[", "]", ":", ",", "(", ")", "0", "x", "#", "\t"}
 	n := g.r.intn(8)
 	var sb strings.Builder
 	sb.WriteByte('"')
@@ -496,11 +496,18 @@ func (g *docGen) collection(depth, indent int, out *[]string) {
 			add(g.sp())
 		} else if g.r.chance(2, 3) {
 			add(" ")
+			if g.r.chance(1, 5) {
+				add(strings.Repeat(" ", 1+g.r.intn(3))) // "[   ]": the scanner drops the whole run
+			}
 		}
 	case multi:
 		for i := 0; i < n; i++ {
 			add("\n")
-			add(strings.Repeat(" ", 4*(indent+1)))
+			if g.r.chance(1, 6) {
+				add(strings.Repeat(" ", g.r.intn(10))) // any indentation, none included: spaces are not part of the grammar
+			} else {
+				add(strings.Repeat(" ", 4*(indent+1)))
+			}
 			if assoc {
 				add(g.intrinsic())
 				add(g.sp())
@@ -671,6 +678,8 @@ var coreTexts = []string{
 	`"\"`, `"\" abc"`, `"abc\"`, "\"abc\\\"\n", `"a\\"`, `"a\\\"`, `"\\\\\\\\\\\\\\\\\\\\`, `"`, `""`, `"""`, "\"a\nb\"", `"\x4"`, `"\x4g"`, `"\xZZ"`, `"\u12"`, `"\u123g"`, `"\U0001F600"`, `"\q"`, `"\0"`, `"\'"`,
 	"\t", "[\t](List)", "[ ]\t(List)", "\r\n", "[1,\r\n2](List)", "\x00", "\a", "\b", "\f", "\v", "\x1b", "\x7f", "\xff", "[\xff](List)", "\"\xff\"", "'\xff'", "\xc3\x28", "\xe2\x82", "é", "[é](List)",
 	"[1, 2](List)\n\n\n", "[1, 2](List)\n \n", "[1, 2](List) \n", "[1, 2](List)\n1", "[1, 2](List)\n\n[", "\n[1](List)", " [1](List)", "[  1  ,  2  ](  List  )",
+	// accepted although Syntax.cdsn does not derive them (docs/C11.md, grammar versus real code)
+	"[ 1 : 2 , 3 : 4 ] ( Map ) ", "[](List)", "[   ](List)", "[\"a\tb\"](List)", "['\t'](List)", "[\"\\101\"](List)", "[\"\\x4F\"](List)",
 	"[\n    1\n\n    2\n](List)", "[\n    1\n    2\n\n](List)", "[\n    1,\n    2\n](List)", "[1,\n2](List)", "[1\n, 2](List)",
 	"[99999999999999999999](List)", "[-9223372036854775809](List)", "[0x10000000000000000](List)", "[1.0e+999](List)", "[(1.0--2.0i)](List)", "[(1.0++2.0i), (1.0-+2.0i), (1.0+-2.0i), (-0.0--0.0i)](List)", "[(1.5e+3--2.5E-3i): (+1.0E+2++1.0e-2i)](Catalog)", "[\"abc\\ud800\"](List)", "['\\xff'](List)",
 	"[1, 2, 3, 4, 5, 6, 7, 8, 9, 10, 11, 12, 13, 14, 15, 16, 17](Queue)", "[1, 2, 3, 4, 5, 6, 7, 8, 9, 10, 11, 12, 13, 14, 15, 16, 17, 18, 19, 20](Stack)",
@@ -863,7 +872,6 @@ func genCdcnParse(prop string, seed uint64, tier, outDir string, count int) erro
 	var predViol []map[string]any
 	knownText := nested(17, "1", true)
 	knownCase := -1
-	depthPanics := 0
 	for i, c := range cases {
 		if c.src == knownText && knownCase < 0 {
 			knownCase = i
@@ -875,11 +883,9 @@ func genCdcnParse(prop string, seed uint64, tier, outDir string, count int) erro
 		case "hang":
 			bad = append(bad, "C12: ParseSource did not return within the watchdog time")
 		case "panic":
-			if c.obs.code == 1 {
-				depthPanics++ // the known finding C12-set-depth-limit (reported below, not as a violation)
-			} else {
-				bad = append(bad, "C12: ParseSource panicked with a text that is not a located syntax diagnostic: "+c.obs.msg)
-			}
+			// since fix 37 the collator's depth-limit panic inside the Set constructor (code 1) is a located
+			// diagnostic too: any textual panic that names no token is a violation
+			bad = append(bad, "C12: ParseSource panicked with a text that is not a located syntax diagnostic: "+c.obs.msg)
 		}
 		if c.kind == "core-reuse" && mustAccept[c.src] && c.obs.kind != "value" {
 			bad = append(bad, "C11: a sentence of the grammar was rejected on a parser instance that had parsed other sources before: "+c.obs.human())
@@ -894,23 +900,14 @@ func genCdcnParse(prop string, seed uint64, tier, outDir string, count int) erro
 			predViol = append(predViol, map[string]any{"case": i, "violated": bad})
 		}
 	}
-	// known finding C12-set-depth-limit: replay the exact input on every run
-	kobs := observeParse(cdc.Notation().Make().ParseSource, knownText, 3*time.Second)
-	kf := map[string]any{"id": "C12-set-depth-limit", "detail": kobs.human(), "input": "a (Set) literal with two members nested 17 (List) levels deep",
-		"other_cases_with_the_same_panic": depthPanics}
-	switch {
-	case kobs.kind == "panic" && kobs.code == 1:
-		kf["still_fails"] = true
-	case kobs.kind == "value" || kobs.kind == "syntax":
-		kf["still_fails"] = false
-	default:
-		kf["still_fails"] = true
-		predViol = append(predViol, map[string]any{"case": knownCase, "violated": []string{"C12: the known-finding input C12-set-depth-limit now ends in a third way: " + kobs.human()}})
+	// the input of the repaired finding C12-set-depth-limit (fix 37) stays among the core texts (kind core-nest):
+	// it must now be rejected with the diagnostic for the type token "Set", as the model says
+	if knownCase >= 0 && cases[knownCase].obs.kind != "syntax" {
+		predViol = append(predViol, map[string]any{"case": knownCase, "violated": []string{"C12: a (Set) whose members are nested beyond the collator's limit is not rejected with a located diagnostic: " + cases[knownCase].obs.human()}})
 	}
 	meta.Cases = len(cases)
 	meta.Rule = "each case is one source text, parsed on a parser instance (cdcn.Parser().Make()) that serves a random group of 1..8 consecutive texts, failing and valid ones mixed, and scanned into a token queue shared by consecutive scans: hand-written corner texts, every prefix and an illegal character at every token boundary of one multi-line document, deep nests, then seeded random texts (derivations of Syntax.cdsn with every literal class and boundary literal, inline/multi-line/empty forms, all seven contexts; the same with inexact literals and value lists under Catalog/Map; one or two mutations of a derivation — prefix, delete/insert/substitute a rune, swap/delete/duplicate/replace a token, illegal character at a token boundary; arbitrary runes and bytes); a case counts as distinct and non-trivial when its text has at least 3 tokens and differs from every other text of the run"
-	meta.Extra = map[string]any{"core_texts": ncore, "input_kinds": meta.OpHist, "tokens_by_type": meta.TypeHist,
-		"known_finding_observations": []map[string]any{kf}}
+	meta.Extra = map[string]any{"core_texts": ncore, "input_kinds": meta.OpHist, "tokens_by_type": meta.TypeHist}
 	if len(predViol) > 0 {
 		meta.Extra["predicate_violations"] = predViol
 	}
